@@ -225,7 +225,9 @@ def boundary_stream(ctx, res, n):
     done = 0
     fixed = [{"k": "url", "required": False}, {"k": "hostname", "required": False}, {"k": "hostname", "required": False, "allow_ipv4": True},
              {"k": "ipv4addr", "required": False}, {"k": "ipv4net", "required": False}, {"k": "int", "required": False, "min": -(2 ** 53), "max": 2 ** 53},
-             {"k": "port", "required": False}]
+             {"k": "port", "required": False}, {"k": "hostname", "required": False, "allow_ipv4": False}, {"k": "hostname", "required": False, "min_len": 5},
+             {"k": "hostname", "required": False, "max_len": 4, "allow_ipv4": False}, {"k": "bool", "required": False}, {"k": "float", "required": False, "min": 0.5}]
+    import argparse
     for _ in range(n * 8 + len(fixed)):
         if done >= n + len(fixed):
             break
@@ -239,6 +241,10 @@ def boundary_stream(ctx, res, n):
             if rng.random() < 0.3:
                 f["max_len"] = f.get("min_len", 0) + rng.choice([0, 1, 3]) if "min_len" in f else f["max_len"]
         crafted = F.crafted_values(f)
+        if f["k"] == "bool":
+            crafted = [True, False, "OFF", "off", "0", "false", "no", "1", "yes", "True", "", "maybe", 0, 1, 2, 0.0, "f", "N"]
+        if f["k"] == "float":
+            crafted = list(crafted) + ["0.5", "1e3", " 2.5 ", "nan", "0.25", "x", "1_0.5"]
         if not crafted or f["k"] in ("any", "challenge", "secure", "filename") or c05.has_custom(f) or c05.finding_tag(f, None):
             continue
         done += 1
@@ -257,9 +263,15 @@ def boundary_stream(ctx, res, n):
         cfg.lst = []
         cfg.dct = {}
         for v in crafted:
+            made = {}
             routes = [("attr", lambda: setattr(cfg, "x", v), lambda: [cfg.x]), ("dotted", lambda: cfg.__setitem__("sub.y", v), lambda: [cfg.sub.y]),
                       ("load", lambda: cfg.load_tree({"x": v}), lambda: [cfg.x]), ("append", lambda: cfg.lst.append(v), lambda: list(cfg.lst)),
-                      ("dict", lambda: cfg.dct.__setitem__("k", v), lambda: list(cfg.dct.values()))]
+                      ("dict", lambda: cfg.dct.__setitem__("k", v), lambda: list(cfg.dct.values())),
+                      ("ctor", lambda: made.__setitem__("c", s(x=v)), lambda: [made["c"].x] if "c" in made else []),
+                      ("ctor-nested", lambda: made.__setitem__("n", s(sub={"y": v})), lambda: [made["n"].sub.y] if "n" in made else []),
+                      ("override", lambda: cc.cmdline_args_override(cfg, argparse.Namespace(**{"sub.y": v, "x": None})), lambda: [cfg.sub.y]),
+                      ("override-root", lambda: cc.cmdline_args_override(cfg, argparse.Namespace(**{"x": v}), ignore="sub.y"), lambda: [cfg.x])]
+            by_attr = None
             for name, do, held in routes:
                 if name == "load" and not isinstance(v, (str, int, float)):
                     continue
@@ -271,6 +283,15 @@ def boundary_stream(ctx, res, n):
                 case = {"stream": "boundary", "field": f, "route": name, "value": F.enc_val(v)}
                 res.case(stable([f, name, F.enc_val(v)]) if outcome == "ok" else None, sample=case if done < 2 and name == "attr" else None,
                          kind="boundary:%s:%s:%s" % (f["k"], name, outcome))
+                if name == "attr":
+                    by_attr = (outcome, cfg.x)
+                elif name not in ("load", "append", "dict") and v is not None and by_attr is not None:
+                    # one declaration, one value: whichever way the value is handed over, it is accepted or refused alike and read back alike
+                    hs = held() if outcome == "ok" else []
+                    if outcome != by_attr[0] or (outcome == "ok" and (not hs or not c05.same(hs[-1], by_attr[1]) or type(hs[-1]) is not type(by_attr[1]))):
+                        res.violate("C01:route-changes-normal-form:" + name, "the same value handed to the same field declaration by another route (constructor keyword, dotted path, "
+                                    "command-line override) is not accepted / refused alike, or does not read back as the field's normal form",
+                                    dict(case, by_attribute=[by_attr[0], F.enc_val(by_attr[1]) if by_attr[0] == "ok" else None], by_route=[outcome, F.enc_val(hs[-1]) if hs else None]))
                 known, exact = F.independent_normal(f, v)
                 if outcome == "ok" and known and exact is F.REJECTED:
                     res.violate("C01:holds-undeclared:" + name, "text that is not a whole number in base ten was accepted by an integer field", dict(case))
@@ -384,6 +405,45 @@ def fixed_stream(ctx, res):
                     res.violate("C01:holds-undeclared:buffer", "a bytes field holds a buffer that is not an immutable bytes object of its own (its type constraint is `bytes`)",
                                 {"stream": "fixed", "what": "buffer", "buffer": bname, "route": route, "encoding": enc, "held_type": type(held).__name__,
                                  "changed_with_callers_buffer": bytes(again) != snapshot})
+    # (d) typed lists / dicts whose (valid, normal-form) default is declared in another shape than a list / dict literal — a tuple, a list
+    # of pairs, a factory returning one of these: the value a fresh configuration (and a reset) holds is a typed container like any other,
+    # so in-place mutation is validated and what is held keeps satisfying the item / key / value constraints
+    for where in ("fresh", "after-reset"):
+        for shape, mk in (("dict-from-pairs", lambda: cc.DictField(cc.StringField(max_len=3), cc.IntField(max=5), default=[("a", 1)])),
+                          ("dict-from-pairs-factory", lambda: cc.DictField(cc.StringField(max_len=3), cc.IntField(max=5), default=lambda: [("a", 1)])),
+                          ("dict-from-dict", lambda: cc.DictField(cc.StringField(max_len=3), cc.IntField(max=5), default={"a": 1})),
+                          ("list-from-tuple", lambda: cc.ListField(cc.IntField(max=5), default=(1, 2))),
+                          ("list-from-tuple-factory", lambda: cc.ListField(cc.IntField(max=5), default=lambda: (1, 2))),
+                          ("list-from-list", lambda: cc.ListField(cc.IntField(max=5), default=[1, 2]))):
+            s = cc.Schema()
+            s.sub.x = mk()
+            cfg = s()
+            if where == "after-reset":
+                cfg.sub.x = {"b": 2} if shape.startswith("dict") else [3]
+                cc.reset_value(cfg, "sub.x")
+            held = cfg.sub.x
+            attempts = []
+            if shape.startswith("dict"):
+                attempts = [("['b'] = 'not a number'", lambda: held.__setitem__("b", "not a number")), ("update(toolongkey=99)", lambda: held.update(toolongkey=99)),
+                            ("['ok'] = 99", lambda: held.__setitem__("ok", 99)), ("setdefault('zzzz', 1)", lambda: held.setdefault("zzzz", 1))]
+            else:
+                attempts = [("append('x')", lambda: held.append("x")), ("append(99)", lambda: held.append(99)), ("+= [7, 'y']", lambda: held.__iadd__([7, "y"])),
+                            ("insert(0, None)", lambda: held.insert(0, [1]))]
+            res.case(stable([where, shape]), kind="fixed:declared-shape")
+            for label, do in attempts:
+                try:
+                    do()
+                except Exception:  # noqa
+                    pass
+            now = cfg.sub.x
+            if shape.startswith("dict"):
+                bad = [(k, v) for k, v in dict(now).items() if not (isinstance(k, str) and len(k) <= 3 and type(v) is int and v <= 5)]
+            else:
+                bad = [v for v in list(now) if not (type(v) is int and v <= 5)]
+            if bad:
+                res.violate("C01:container-holds-invalid:declared-shape", "a typed list / dict whose default was declared as a tuple / a list of pairs holds entries its fields do not "
+                            "accept after in-place operations (the held value is not a typed container)", {"stream": "fixed", "what": "declared-shape", "shape": shape, "where": where,
+                                                                                                          "held_type": type(now).__name__, "invalid": repr(bad)[:200]})
     for kind, mk, custom, values in (("int", lambda v: cc.IntField(validator=v), F.CATALOGUE["clamp0"], [-5, -1, 0, 3, "-7"]),
                                      ("string", lambda v: cc.StringField(validator=v), F.CATALOGUE["blank"], ["#c", "# x", "keep", ""])):
         for v in values:
